@@ -4,7 +4,7 @@
 From Selene Require Export Corr.Common Lints.Closed Lints.ClosedSpec.
 
 Inductive c04case :=
-| CChunk (chunk : block) (div0 nan revloop empty_if empty_loop unbalanced : nat)
+| CChunk (chunk : block) (div0 nan revloop empty_if empty_loop unbalanced mixed dupkeys paren tablecmp typecheck : nat)
 | CArgs (ps : list param) (a : args) (reported : bool)
 | CVerdict (lint : string) (expected : bool) (count : nat).
 
@@ -15,15 +15,18 @@ Definition l2_node (n : node) : bool :=
 
 Definition check_case (c : c04case) : N * N :=
   match c with
-  | CChunk chunk d0 nn rl ei el ub =>
+  | CChunk chunk d0 nn rl ei el ub mx dk pc tc ty =>
       let m := lint_counts chunk in
       let ns := nodes_block chunk in
       let corr := Nat.eqb (n_div0 m) d0 && Nat.eqb (n_nan m) nn && Nat.eqb (n_revloop m) rl &&
-                  Nat.eqb (n_empty_if m) ei && Nat.eqb (n_empty_loop m) el && Nat.eqb (n_unbalanced m) ub in
+                  Nat.eqb (n_empty_if m) ei && Nat.eqb (n_empty_loop m) el && Nat.eqb (n_unbalanced m) ub &&
+                  Nat.eqb (n_mixed m) mx && Nat.eqb (n_dupkeys m) dk && Nat.eqb (n_paren m) pc &&
+                  Nat.eqb (n_tablecmp m) tc && Nat.eqb (n_typecheck m) ty in
       (* never on a false (value-judged) condition; always on the canonical spelling *)
       let over := Nat.ltb (count cond_div0 ns) d0 || Nat.ltb (count cond_nan ns) nn || Nat.ltb (count cond_revloop ns) rl in
       let under := Nat.ltb d0 (count is_div0 ns) || Nat.ltb nn (count is_compare_nan ns) || Nat.ltb rl (count is_reverse_loop ns)
-                   || Nat.ltb el (count is_empty_loop ns) || Nat.ltb ub (count is_unbalanced ns) in
+                   || Nat.ltb el (count is_empty_loop ns) || Nat.ltb ub (count is_unbalanced ns)
+                   || Nat.ltb mx (count is_mixed ns) || Nat.ltb tc (count is_table_comparison ns) || Nat.ltb ty (count is_type_check_inside ns) in
       let l2 := existsb l2_node ns in
       (bit (negb corr) 1 + bit (over && negb l2) 4 + bit under 8, bit (over && l2) 1)%N
   | CArgs ps a reported =>
